@@ -10,13 +10,19 @@ class Guderley(ExactSolver):
     """
 
     parameters = {
-        'geometry': '1=planar, 2=cylindrical, 3=spherical',
+        'geometry': '2=cylindrical, 3=spherical',
         'gamma': 'specific heat ratio',
         'rho0': 'initial uniform density',
         }
     geometry = 3
     gamma = 1.4
     rho0 = 1.0
+
+    def __init__(self, **kwargs):
+        super(Guderley, self).__init__(**kwargs)
+
+        if self.geometry not in [2, 3]:
+            raise ValueError('geometry must be 2 or 3')
 
     def _run(self, r, t):
 
